@@ -247,9 +247,12 @@ def subset(check, prog):
                     t[2][0] == data and t[2][1] == ('const', 'flat'):
                 return kind != 'grid'
             if t[0] == 'cmp' and t[1] in ('in', 'not in') and \
-                    t[2] == ('const', 'original_dims'):
-                # the record of the image's axes exists on a subset, not on a grid
-                return (kind != 'grid') == (t[1] == 'in')
+                    t[2] == ('const', 'original_dims') and kind != 'grid':
+                # a subset carries the record of the image's axes; an image may
+                # or may not (attrs travel: the hologram of a subset fit, a
+                # calculation on a subset put back on its grid), so for a grid
+                # the test stays undecided
+                return t[1] == 'in'
             if t == pix_none:
                 return False
             return None
@@ -260,7 +263,12 @@ def subset(check, prog):
             v = o.value[1][0] if o.value[0] == 'tuple' else o.value
             stores = []
             t = v
-            while t[0] == 'upd':
+            while t[0] == 'upd' or (t[0] == 'ite' and any(
+                    y == ('const', 'original_dims') for y in subterms(t[1]))):
+                # (with or without the record of the axes: the same pixels)
+                if t[0] == 'ite':
+                    t = t[3] if t[3][0] != 'upd' else t[2]
+                    continue
                 stores.append(t)
                 t = t[1]
             # strip attribute bookkeeping: x{.attrs := ...}, x.attrs{#k := v}
@@ -296,10 +304,19 @@ def subset(check, prog):
                     if okd:
                         e = d[3][0][0]
                         okd = d[2] == ('tuple', (e, ('attr', ('idx', data, e), 'values')))
-                check.require(okd, 'D2-original-axes',
+                stale = [x for x in subterms(v) if x[0] == 'ite' and any(
+                    y == ('const', 'original_dims') for y in subterms(x[1]))]
+                check.require(okd and not stale, 'D2-original-axes',
                               'make_subset_data original_dims [grid]',
                               "attrs['original_dims'] = {dim: data[dim].values for "
-                              "every dim}", loc)
+                              "every dim}, whatever record the image's metadata "
+                              'carried', loc,
+                              fail_detail='the record is written only when %s: an '
+                              'image that carries an older record (the hologram of a '
+                              'subset fit, cropped) keeps the axes of the old image '
+                              'and FitResult.forward rebuilds the wrong grid' % (
+                                  show(stale[0][1])[:80],) if stale else
+                              'no record of the image\'s axes is written')
             else:
                 keep = all(x[4] in (intern(('idx', ('attr', data, 'attrs'),
                                             ('const', 'original_dims'))),
